@@ -19,18 +19,22 @@
 (***************************************************************************)
 EXTENDS InitCmdContract, TLC, Json
 
-CONSTANTS Worlds,      \* set of [id, pkgs, gopkgs, cfgs, inits, envs, ancs] records (scratch module + alphabets)
+CONSTANTS Worlds,      \* set of [id, pkgs, gopkgs, cfgs, inits, envs, ancs, mixes] records (scratch module + alphabets)
           IfacesOf,    \* package id -> names of the interfaces that must be mocked (Go packages of the world)
           MayOf,       \* package id -> names of the interfaces the statement leaves open
           ImplExtraOf, \* package id -> those of MayOf the code mocks today (every interface literal: constraints too)
           RejectedPkgs,\* package ids whose written file mockery's loader rejects   } known findings: yaml.v3 writes the key
           MangledPkgs, \* package ids that load back as a different string          } `<<` unquoted and mis-writes some block literals
           MaxHist,     \* bound on the number of operations in a history
+          MixHist,     \* the same bound for the worlds whose package is given by its source files (what is explored
+                       \* there is the package, not the history)
           TrackLoad    \* TRUE: a successful load is part of the state, so histories continue after it
 
 VARIABLES world,       \* the world record chosen for this behaviour
           start,       \* kind of content at the target path before the first operation
           decoy,       \* what is at the place lexical cleaning of --config would name: "none" (same place) | "absent" | "valid"
+          mix,         \* the source files (set of file classes, InitCmdContract!FileClass) the Go package "mix" of
+                       \* the world is made of; {} = the world has no such package
           anc,         \* a configuration file some ancestor directory of the working directory already holds
           env,         \* class of MOCKERY_* variables set while `init` runs (load and run use a clean environment)
           cfg,         \* class of the --config argument (see CfgClasses)
@@ -41,8 +45,8 @@ VARIABLES world,       \* the world record chosen for this behaviour
           last,        \* the last completed operation with its outcome and the contract's verdict
           hist         \* all completed operations (observation; hidden by VIEW)
 
-vars == <<world, start, decoy, anc, env, cfg, content, mocks, loaded, pc, pending, last, hist>>
-view == <<world, start, decoy, anc, env, cfg, content, mocks, loaded, pc, pending>>
+vars == <<world, start, decoy, mix, anc, env, cfg, content, mocks, loaded, pc, pending, last, hist>>
+view == <<world, start, decoy, mix, anc, env, cfg, content, mocks, loaded, pc, pending>>
 
 \* --config classes.  "default": flag absent, init.go:47 falls back to ".mockery.yml" in the working
 \* directory and a later plain run finds it by search.  All others name the file explicitly.
@@ -72,6 +76,9 @@ Init ==
   /\ start \in world.inits
   /\ cfg = "missing" => start = "absent"      \* nothing can be below a directory that does not exist
   /\ decoy \in (IF TwoCandidates(cfg) THEN {"absent", "valid"} ELSE {"none"})
+  /\ mix \in world.mixes
+  /\ mix # {} => FilesIfaces(mix) # {} /\ "mix" \in world.pkgs   \* a package (some file is compiled) with interfaces to mock
+  /\ mix = {} => "mix" \notin world.pkgs
   /\ anc \in world.ancs
   /\ anc # "none" => start = "absent" /\ cfg \in {"default", "cwdsub"}   \* only the search for a config looks upwards
   /\ env \in world.envs
@@ -83,21 +90,22 @@ Init ==
   /\ last = [op |-> "start"]
   /\ hist = << >>
 
+HistBound == IF mix = {} THEN MaxHist ELSE MixHist
 Done(rec) == last' = rec /\ hist' = Append(hist, rec)
 
 (* ---------------------------------------------------------------- init.go *)
 \* init.go:41-79.  O_CREATE|O_EXCL: fails with EEXIST on anything lstat finds (a directory, a symbolic
 \* link even when dangling), with ENOENT when the parent directory is missing.
 InitOpen(p) ==
-  /\ pc = "idle" /\ Len(hist) < MaxHist
+  /\ pc = "idle" /\ Len(hist) < HistBound
   /\ IF p \in ArgShapes \/ content.k # "absent" \/ ~ParentOK(cfg)
      THEN /\ Done([op |-> "init", pkg |-> p, ok |-> FALSE, after |-> "same",
                    allow |-> IF p \in ArgShapes THEN InitAllowedOtherArgs(Presence(content))
                              ELSE InitAllowed(Presence(content), ParentOK(cfg))])
-          /\ UNCHANGED <<world, start, decoy, anc, env, cfg, content, mocks, loaded, pc, pending>>
+          /\ UNCHANGED <<world, start, decoy, mix, anc, env, cfg, content, mocks, loaded, pc, pending>>
      ELSE /\ content' = C("created", None)        \* an empty file exists from here on
           /\ pc' = "opened" /\ pending' = p
-          /\ UNCHANGED <<world, start, decoy, anc, env, cfg, mocks, loaded, last, hist>>
+          /\ UNCHANGED <<world, start, decoy, mix, anc, env, cfg, mocks, loaded, last, hist>>
 
 \* init.go:54-71,81-88.  rootConf = defaults of NewDefaultKoanf + packages {p: {config: {all: true}}}.
 \* NewDefaultKoanf (config.go:89-110) holds the built-in defaults only: the MOCKERY_* environment is a layer of
@@ -109,7 +117,7 @@ InitEncode ==
   /\ pc' = "idle" /\ pending' = None
   /\ Done([op |-> "init", pkg |-> pending, ok |-> TRUE, after |-> "created",
            allow |-> InitAllowed("no", ParentOK(cfg))])
-  /\ UNCHANGED <<world, start, decoy, anc, env, cfg, mocks>>
+  /\ UNCHANGED <<world, start, decoy, mix, anc, env, cfg, mocks>>
 
 (* ------------------------------------------------------------ showconfig *)
 \* Known deviations (findings C18-merge-key-package, C18-block-literal-package): yaml.v3 writes the key `<<`
@@ -125,20 +133,23 @@ LoadImpl(c) ==
 
 \* from: "cwd" = the directory init ran in, "below" = a sub-directory of it, the file found by searching upwards
 \* (only meaningful when no --config is given)
-Froms == IF cfg = "default" /\ env = "none" /\ anc = "none" THEN {"cwd", "below"} ELSE {"cwd"}   \* not crossed with env / ancestors
+Froms == IF cfg = "default" /\ env = "none" /\ anc = "none" /\ mix = {} THEN {"cwd", "below"} ELSE {"cwd"}   \* not crossed with env / ancestors
 Load(from) ==
-  /\ pc = "idle" /\ Len(hist) < MaxHist
+  /\ pc = "idle" /\ Len(hist) < HistBound
   /\ content.k # "fifo"          \* reading a pipe nobody writes to blocks: not an observation about init
   /\ LET r == LoadImpl(content) IN
      /\ Done([op |-> "load", from |-> from, pkg |-> By(content), ok |-> r.ok, keys |-> r.keys, expect |-> LoadExpect(By(content))])
      /\ loaded' = IF TrackLoad /\ r.ok THEN TRUE ELSE loaded
-  /\ UNCHANGED <<world, start, decoy, anc, env, cfg, content, mocks, pc, pending>>
+  /\ UNCHANGED <<world, start, decoy, mix, anc, env, cfg, content, mocks, pc, pending>>
 
 (* ------------------------------------------------------------- plain run *)
 IsGoPkg(p) == p \in world.gopkgs
-Ifc(p) == IF p \in DOMAIN IfacesOf THEN IfacesOf[p] ELSE {}
-May(p) == IF p \in DOMAIN MayOf THEN MayOf[p] ELSE {}
-ImplExtra(p) == IF p \in DOMAIN ImplExtraOf THEN ImplExtraOf[p] ELSE {}
+\* the package "mix": what it declares follows from the files it is made of (contract operators)
+Ifc(p) == IF p = "mix" THEN FilesIfaces(mix) ELSE IF p \in DOMAIN IfacesOf THEN IfacesOf[p] ELSE {}
+May(p) == IF p = "mix" THEN FilesMay(mix) ELSE IF p \in DOMAIN MayOf THEN MayOf[p] ELSE {}
+\* parse.go:45-64 loads the package without its tests (packages.Config.Tests = false) and walks pkg.GoFiles: files
+\* the toolchain leaves out and _test.go files are never seen, every other file is, whatever its header says
+ImplExtra(p) == IF p = "mix" THEN {} ELSE IF p \in DOMAIN ImplExtraOf THEN ImplExtraOf[p] ELSE {}
 
 \* With the defaults init states (dir = interface dir, filename = mocks_test.go, force-file-write =
 \* false) the first run writes <pkg dir>/mocks_test.go and a second one refuses to overwrite it.
@@ -148,14 +159,14 @@ RunImpl(c) ==
   ELSE [ok |-> FALSE, mocked |-> {}]
 
 Run(from) ==
-  /\ pc = "idle" /\ Len(hist) < MaxHist
+  /\ pc = "idle" /\ Len(hist) < HistBound
   /\ content.k = "init" /\ IsGoPkg(content.p)   \* a run on user content, or for a string that names no
                                                  \* package, says nothing about init
   /\ LET r == RunImpl(content) IN
      /\ Done([op |-> "run", from |-> from, pkg |-> By(content), ok |-> r.ok, mocked |-> r.mocked,
               expect |-> RunExpect(By(content), IsGoPkg(content.p), Ifc(content.p), May(content.p), content.p \in mocks)])
      /\ mocks' = IF r.ok THEN mocks \cup {content.p} ELSE mocks
-  /\ UNCHANGED <<world, start, decoy, anc, env, cfg, content, loaded, pc, pending>>
+  /\ UNCHANGED <<world, start, decoy, mix, anc, env, cfg, content, loaded, pc, pending>>
 
 Next ==
   \/ \E p \in world.pkgs : InitOpen(p)
@@ -190,6 +201,7 @@ TypeOK == /\ cfg \in CfgClasses /\ env \in EnvClasses /\ anc \in AncClasses
           /\ content.k \in UserKinds \cup {"absent", "created", "init"}
           /\ pc \in {"idle", "opened"}
           /\ mocks \subseteq world.gopkgs
+          /\ mix \subseteq FileClasses
 
 \* vacuity witnesses: each of these must be VIOLATED (checked by separate cfgs in the thorough tier)
 NeverInitOnExisting == ~(last.op = "init" /\ ~last.ok)
@@ -199,7 +211,7 @@ NeverRunMocks == ~(last.op = "run" /\ last.ok)
 -----------------------------------------------------------------------------
 (* Export: every generated transition that completes an operation is printed once, with the world, the
    --config class, the initial content and the history that leads to it. *)
-Case == [world |-> world.id, cfg |-> cfg, start |-> start, env |-> env, anc |-> anc, decoy |-> decoy, ops |-> hist]
+Case == [world |-> world.id, cfg |-> cfg, start |-> start, env |-> env, anc |-> anc, decoy |-> decoy, mix |-> mix, ops |-> hist]
 Emit == IF pc = "idle" /\ Len(hist) > 0 /\ TLCGet("config").mode = "bfs"
         THEN PrintT(<<"CASE", ToJson(Case)>>) ELSE TRUE
 =============================================================================
